@@ -135,6 +135,23 @@ Qed.
 
 (* queries compiled to a single instruction that allocates no variable (the arguments compileCallInternal
    inlines as  load v; X) *)
+(* queries that only define functions (and pass their input on) *)
+Lemma transparent_den : forall q, transparent q = true -> forall rho v, den q rho v = ([v], None).
+Proof.
+  induction q; simpl; intros H rho v; try discriminate; auto.
+  apply andb_true_iff in H. destruct H as [H1 H2].
+  rewrite (IHq1 H1). unfold bind. simpl. rewrite (IHq2 H2). reflexivity.
+Qed.
+Lemma den_pipe_rt : forall a b, transparent b = true -> forall rho v, den (QPipe a b) rho v = den a rho v.
+Proof.
+  intros a b E rho v. simpl. rewrite (bind_list_ext' (den a rho v) _ (fun w => ([w], None))); [apply bind_unit|]. intros w. apply (transparent_den _ E).
+Qed.
+Lemma transparent_nvars : forall q, transparent q = true -> nvars q = 0.
+Proof.
+  induction q; simpl; intros H; try discriminate; auto.
+  apply andb_true_iff in H. destruct H as [H1 H2]. rewrite IHq1, IHq2; auto.
+Qed.
+
 Definition den_instr (x : instr) (v : jv) : result :=
   match x with
   | Iconst c => ([c], None)
